@@ -3,7 +3,7 @@
   Property theorems about the model `Atomman/C06.lean` (tied to atomman/core/Atoms.py and
   atomman/core/System.py by the history correspondence of harness/props/c06.py).
 -/
-import Proofs.C06_System
+import Proofs.C06_Aux
 
 namespace Atomman.C06
 set_option linter.unusedSimpArgs false
@@ -16,23 +16,6 @@ set_option linter.unusedVariables false
     keys are distinct, `atype` cells are numeric and ≥ 1, every system points at an existing `Atoms`
     and has a 3-entry `pbc`; `Boundary`: every object has an `atype` property. -/
 def Inv (s : State) : Prop := (∃ κ, InvK κ s) ∧ Boundary s
-
-theorem post_map_good {α : Type} {κ : Nat → String} {s : State} {m : M α} (g : α → Out)
-    (h : Post m s (fun _ s' => Good κ s s')) :
-    Post (do let a ← m; pure (g a) : M Out) s (fun _ s' => Good κ s s') := by
-  rw [post_bind]
-  apply Post.mono h
-  intro r s' hg
-  cases r with
-  | error e => exact hg
-  | ok a => exact hg
-
-theorem post_unit_good {κ : Nat → String} {s : State} {m : M Unit}
-    (h : Post m s (fun _ s' => Good κ s s')) :
-    Post (do m; pure Out.unit : M Out) s (fun _ s' => Good κ s s') := post_map_good (fun _ => Out.unit) h
-
-theorem good_of_eq {κ : Nat → String} {s s' : State} (h : InvK κ s) (he : s' = s) : Good κ s s' := by
-  subst he; exact Good.refl h
 
 /-- every call of the documented grammar, started in a state satisfying the invariant, ends
     (normally or by raising) in a state satisfying it. -/
@@ -166,21 +149,6 @@ theorem inv_run {κ : Nat → String} {s : State} (h : InvK κ s) (hb : Boundary
     | inl o => exact Post.mono (inv_setItem h _ ix o) (fun _ _ hq => Good.of_kept hq)
     | inr j => exact Post.mono (inv_setItem h _ ix _) (fun _ _ hq => Good.of_kept hq)
 
-theorem stepWith_state (off : Bool) (s : State) (op : Op) :
-    (stepWith off s op).2 = s ∨
-    ((op.litsOk = true ∧ op.idsOk s = true) ∧ stepWith off s op = run off op s) := by
-  unfold stepWith
-  split
-  · left; rfl
-  · rename_i hc
-    have hc : op.litsOk = true ∧ op.idsOk s = true := by
-      by_cases h1 : op.litsOk = true ∧ op.idsOk s = true
-      · exact h1
-      · exact absurd h1 hc
-    split
-    · left; rfl
-    · right; exact ⟨hc, rfl⟩
-
 theorem init_inv : Inv init := by
   refine ⟨⟨fun _ => "", ?_, ?_, ?_, ?_⟩, ?_⟩
   · intro b hb; simp [init] at hb
@@ -268,25 +236,6 @@ theorem reachable_atype_ge_one (ops : List Op) (o : Nat) (ho : o < (ops.foldl st
       ∀ c ∈ (arrVal (ops.foldl step init) a).data, ∃ q, c.num? = some q ∧ 1 ≤ q :=
   inv_atype_ge_one _ (inv_reachable ops) o ho
 
-theorem foldl_min_mem (l : List Rat) (x : Rat) : l.foldl (fun m y => if y < m then y else m) x ∈ x :: l := by
-  induction l generalizing x with
-  | nil => simp
-  | cons z t ih =>
-    simp only [List.foldl_cons]
-    by_cases hz : z < x
-    · simp only [hz, if_true]
-      have := ih z
-      simp only [List.mem_cons] at this ⊢
-      rcases this with h | h
-      · right; left; exact h
-      · right; right; exact h
-    · simp only [hz, if_false]
-      have := ih x
-      simp only [List.mem_cons] at this ⊢
-      rcases this with h | h
-      · left; exact h
-      · right; right; exact h
-
 /-- consequently the `np.min(self.atype) < 1` refusal of `natypes` is never taken on an object of a
     state satisfying the invariant. -/
 theorem inv_natypes_min (s : State) (h : Inv s) (o : Nat) (ho : o < s.objs.length)
@@ -362,9 +311,6 @@ theorem symbolsSet_pads (s : State) (h : Inv s) (i : Nat) (hi : i < s.syss.lengt
 
 /-! ## refusals: one lemma per refusal branch (nothing is defaulted) -/
 
-theorem eq_of_post {α : Type} {m : M α} {s : State} {x : Except Err α} {y : State}
-    (h : Post m s (fun r s' => r = x ∧ s' = y)) : m s = (x, y) := Prod.ext h.1 h.2
-
 /-- `view[key] = value` with a first dimension that is neither 1 nor `natoms`: ValueError, nothing changes. -/
 theorem viewSet_len_mismatch_rejects (s : State) (o : Nat) (key : String) (src : Src) (d : Nat) (t : List Nat)
     (hs : (srcVal s src).shape = d :: t) (h1 : d ≠ 1) (hn : d ≠ (s.obj o).natoms) :
@@ -378,34 +324,6 @@ theorem viewSet_len_mismatch_rejects (s : State) (o : Nat) (key : String) (src :
     simp only [hs, h1, hn, if_false, ne_eq, not_false_eq_true, if_true]
   rw [this, post_bind_fail]
   exact ⟨rfl, rfl⟩
-
-theorem mapM_num_total (cells : List Cell) (h : ∀ c ∈ cells, (c.num?).isSome) :
-    ∃ nums, cells.mapM Cell.num? = some nums := by
-  induction cells with
-  | nil => exact ⟨[], rfl⟩
-  | cons x t ih =>
-    obtain ⟨ns, hns⟩ := ih (fun c hc => h c (by simp [hc]))
-    have hx := h x (by simp)
-    cases hxn : x.num? with
-    | none => simp [hxn] at hx
-    | some q => exact ⟨q :: ns, by simp [List.mapM_cons, hxn, hns]⟩
-
-/-- the `np.min(value) < 1` test fires as soon as one cell of a numeric value is below 1. -/
-theorem guard_fires (cells : List Cell) (hnum : ∀ c ∈ cells, (c.num?).isSome) (c : Cell) (hc : c ∈ cells) (q : Rat)
-    (hq : c.num? = some q) (hlt : q < 1) :
-    ∃ nums m, cells.mapM Cell.num? = some nums ∧ listMin nums = some m ∧ m < 1 := by
-  obtain ⟨nums, hnums⟩ := mapM_num_total cells hnum
-  obtain ⟨q', hq', hcq'⟩ := mapM_option_fwd _ _ _ hnums c hc
-  rw [hq] at hcq'; injection hcq' with hcq'; subst hcq'
-  cases hm : listMin nums with
-  | none =>
-    cases nums with
-    | nil => simp at hq'
-    | cons x xs => simp [listMin] at hm
-  | some m =>
-    refine ⟨nums, m, hnums, hm, ?_⟩
-    have := listMin_le nums m hm q hq'
-    grind
 
 /-- whole-column assignment of atom types containing a value below 1: ValueError, nothing changes. -/
 theorem viewSet_atype_lt_one_rejects (s : State) (o : Nat) (v : Val) (t : List Nat)
@@ -557,5 +475,157 @@ theorem step_unmodelled (off : Bool) (s : State) (op : Op) (h : (stepWith off s 
       | error e =>
         cases e <;> simp at h ⊢
   · simp only [hc, not_false_eq_true, if_true]
+
+/-! ## refinement to the record-per-atom specification: slicing and copying -/
+
+/-- **refines (`atoms[index]`)** — in a state satisfying the invariant, a returning `__getitem__` yields
+    `GetItemRes`: a new object with one atom per selected position whose every property is the operand's
+    property of the same name cut by the *same* positions (row `j` of every property of the result is
+    atom `sel.pos[j]` of the operand), in the key order `atype, pos, rest`; see `GetItemRes`, `ColRel`. -/
+theorem refines_getItem (s : State) (h : Inv s) (o : Nat) (ix : Index) (ho : o < s.objs.length) (o' : Nat) (s' : State)
+    (hrun : getItem o ix s = (.ok o', s')) :
+    ∃ sel, resolve (s.obj o).natoms (atomsIndex ix) = .ok sel ∧ GetItemRes s o sel o' s' := by
+  obtain ⟨⟨κ, hinv⟩, hb⟩ := h
+  have := getItem_refines hinv o ix (hb o ho)
+  unfold Post at this
+  rw [hrun] at this
+  exact this.2 o' rfl
+
+/-- **refines (`deepcopy(atoms)`)** — the copy has the same number of atoms and, for every property,
+    the same name, dtype, trailing shape and rows (`GetItemRes` for the all-rows copy selection). -/
+theorem refines_deepcopy (s : State) (h : Inv s) (o : Nat) (ho : o < s.objs.length) (o' : Nat) (s' : State)
+    (hrun : deepcopy o s = (.ok o', s')) : GetItemRes s o (copySel (s.obj o).natoms) o' s' := by
+  obtain ⟨⟨κ, hinv⟩, hb⟩ := h
+  have := deepcopy_refines hinv o (hb o ho)
+  unfold Post at this
+  rw [hrun] at this
+  exact this.2 o' rfl
+
+theorem deepcopy_rows (s : State) (h : Inv s) (o : Nat) (ho : o < s.objs.length) (o' : Nat) (s' : State)
+    (hrun : deepcopy o s = (.ok o', s')) (p : PropRef) (hp : p ∈ (s.obj o).props) :
+    ∃ p' ∈ (s'.obj o').props, p'.key = p.key ∧ arrRows s' p'.arr = arrRows s p.arr ∧
+      arrVal s' p'.arr = arrVal s p.arr := by
+  have hres := refines_deepcopy s h o ho o' s' hrun
+  obtain ⟨⟨κ, hinv⟩, _⟩ := h
+  have hp0 := hinv.obj_props o p hp
+  obtain ⟨p', hp', hrel⟩ := hres.cols p hp
+  have hrows : arrRows s' p'.arr = arrRows s p.arr := by
+    rw [hrel.rows, ← hp0.len]; exact copySel_rows s p.arr
+  refine ⟨p', hp', hrel.key, hrows, ?_⟩
+  have hlen : p'.arr.idx.length = p.arr.idx.length := by
+    have := congrArg List.length hrows
+    simpa [arrRows] using this
+  simp only [arrVal, hrows, hrel.dt, hrel.trail, hlen]
+
+/-- a refused `__getitem__` / `deepcopy` leaves no trace. -/
+theorem getItem_error_unchanged (s : State) (o : Nat) (ix : Index) (e : Err) (s' : State)
+    (hrun : getItem o ix s = (.error e, s')) : s' = s := by
+  unfold getItem atomic at hrun
+  split at hrun
+  · cases hrun
+  · injection hrun with _ h2; exact h2.symm
+
+/-- **operand_unchanged** — slicing / copying leaves every object that existed before exactly as it
+    was: same arrays bound to the same names, and every one of them reads the same value. -/
+theorem GetItemRes.operand_unchanged {s s' : State} {o o' : Nat} {sel : Sel} (hr : GetItemRes s o sel o' s')
+    (h : Inv s) (o'' : Nat) (ho'' : o'' < s.objs.length) :
+    s'.obj o'' = s.obj o'' ∧ ∀ p ∈ (s.obj o'').props, arrVal s' p.arr = arrVal s p.arr := by
+  obtain ⟨⟨κ, hinv⟩, _⟩ := h
+  refine ⟨hr.objs o'' ho'', ?_⟩
+  intro p hp
+  have hp0 := hinv.obj_props o'' p hp
+  obtain ⟨r1, r2, r3⟩ := hr.heap.rows p.arr hp0.valid.1
+  simp only [arrVal, r1, r2, r3]
+
+/-- **copy_fresh** — the arrays of an object returned for an integer-list or boolean index (or holding
+    a single atom) share no memory with any array of any object that existed before. -/
+theorem GetItemRes.copy_fresh {s s' : State} {o o' : Nat} {sel : Sel} (hr : GetItemRes s o sel o' s') (h : Inv s)
+    (hcopy : sel.view = false ∨ sel.pos.length = 1) (p' : PropRef) (hp' : p' ∈ (s'.obj o').props)
+    (o'' : Nat) (p : PropRef) (hp : p ∈ (s.obj o'').props) :
+    s.heap.length ≤ p'.arr.buf ∧ sharesMem s' p'.arr p.arr = false := by
+  obtain ⟨⟨κ, hinv⟩, _⟩ := h
+  obtain ⟨p0, _, hrel⟩ := hr.colsRev p' hp'
+  have hfresh := hrel.fresh hcopy
+  have hp0 := hinv.obj_props o'' p hp
+  refine ⟨hfresh, ?_⟩
+  have : p'.arr.buf ≠ p.arr.buf := by have := hp0.valid.1; omega
+  simp [sharesMem, this]
+
+/-- **copy_fresh / operand_unchanged for `deepcopy`.** -/
+theorem deepcopy_fresh (s : State) (h : Inv s) (o : Nat) (ho : o < s.objs.length) (o' : Nat) (s' : State)
+    (hrun : deepcopy o s = (.ok o', s')) (p' : PropRef) (hp' : p' ∈ (s'.obj o').props) (o'' : Nat) (p : PropRef)
+    (hp : p ∈ (s.obj o'').props) : sharesMem s' p'.arr p.arr = false :=
+  ((refines_deepcopy s h o ho o' s' hrun).copy_fresh h (Or.inl rfl) p' hp' o'' p hp).2
+
+/-- a basic slice of more than one atom aliases its operand: the result's arrays are the views
+    `p.arr[sel]` of the operand's arrays (writes through either are seen by both, as in numpy). -/
+theorem GetItemRes.slice_is_view {s s' : State} {o o' : Nat} {sel : Sel} (hr : GetItemRes s o sel o' s')
+    (hv : sel.view = true) (hne : sel.pos.length ≠ 1) (p : PropRef) (hp : p ∈ (s.obj o).props) :
+    ∃ p' ∈ (s'.obj o').props, p'.key = p.key ∧ p'.arr = subArr p.arr sel := by
+  obtain ⟨p', hp', hrel⟩ := hr.cols p hp
+  exact ⟨p', hp', hrel.key, hrel.view hv hne⟩
+
+/-! ## non-vacuity: concrete histories of the model (`K := Rat`) on which the hypotheses hold -/
+
+instance {α : Type} [DecidableEq α] : DecidableEq (Except Err α) := fun a b =>
+  match a, b with
+  | .ok x, .ok y => if h : x = y then isTrue (by rw [h]) else isFalse (fun hc => h (by injection hc))
+  | .error x, .error y => if h : x = y then isTrue (by rw [h]) else isFalse (fun hc => h (by injection hc))
+  | .ok _, .error _ => isFalse (fun hc => by cases hc)
+  | .error _, .ok _ => isFalse (fun hc => by cases hc)
+
+/-- three atoms, types 1 2 1, positions (i,i,i), one extra float property `q`. -/
+def exNew : Op := .new none (some ⟨.int, [3], [.int 1, .int 2, .int 1]⟩)
+  (some ⟨.flt, [3, 3], [.flt 0, .flt 0, .flt 0, .flt 1, .flt 1, .flt 1, .flt 2, .flt 2, .flt 2]⟩)
+  [("q", ⟨.flt, [3], [.flt (1/2), .flt (3/2), .flt (5/2)]⟩)]
+
+/-- construct; take atoms [2, 0] (copy); deepcopy; wrap in a System with one symbol; read symbols;
+    overwrite `q[1:]` of the first object; take the slice `[1:3]` (a view); write through the view. -/
+def exOps : List Op := [exNew, .getItem 0 (.list [2, 0]), .deepcopy 0,
+  .mkSys 0 unitBox [true, true, false] (some [some "Al"]) none, .symbolsGet 0,
+  .propSet 0 "q" (some (.slice (some 1) none none)) ⟨.flt, [], [.flt 7]⟩,
+  .getItem 0 (.slice (some 1) (some 3) none), .propSet 3 "q" (some (.int 0)) ⟨.flt, [], [.flt 9]⟩]
+
+def exS : State := exOps.foldl step init
+
+/-- the invariant holds on the concrete history (instance of `inv_reachable`). -/
+example : Inv exS := inv_reachable exOps
+example : exS.objs.length = 4 ∧ exS.syss.length = 1 ∧ exS.heap.length = 9 := by decide +kernel
+-- `refines_getItem` / `GetItemRes`: hypotheses hold, and the copy reads atoms 2 and 0 of the operand
+example : (getItem 0 (.list [2, 0]) ([exNew].foldl step init)).1 = .ok 1 := by decide +kernel
+example : (propGet 1 "q" none exS).1 = .ok ⟨.flt, [2], [.flt (5/2), .flt (1/2)]⟩ := by decide +kernel
+example : (propGet 1 "atype" none exS).1 = .ok ⟨.int, [2], [.int 1, .int 1]⟩ := by decide +kernel
+-- `operand_unchanged` / `copy_fresh`: later writes to object 0 did not reach the copies (1 and 2) …
+example : (propGet 0 "q" none exS).1 = .ok ⟨.flt, [3], [.flt (1/2), .flt 9, .flt 7]⟩ := by decide +kernel
+example : (propGet 2 "q" none exS).1 = .ok ⟨.flt, [3], [.flt (1/2), .flt (3/2), .flt (5/2)]⟩ := by decide +kernel
+-- … but `slice_is_view`: object 3 is the slice [1:3] of object 0 and the write of 9 through it is seen by both
+example : (propGet 3 "q" none exS).1 = .ok ⟨.flt, [2], [.flt 9, .flt 7]⟩ := by decide +kernel
+-- `symbols_padded`: natypes is 2, one symbol was given, the getter pads to two
+example : (symbolsGet 0 exS).1 = .ok [some "Al", none] ∧ (natypes 0 exS).1 = .ok 2 := by decide +kernel
+example : (massesGet 0 exS).1 = .ok [none, none] := by decide +kernel
+-- refusals: hypotheses of the refusal lemmas are satisfiable, the model refuses
+example : output exS (.setView 0 "q" ⟨.flt, [2], [.flt 1, .flt 2]⟩) = .error .value := by decide +kernel
+example : output exS (.setView 0 "atype" ⟨.int, [3], [.int 1, .int 0, .int 1]⟩) = .error .value := by decide +kernel
+example : output exS (.propSet 0 "atype" (some (.int 1)) ⟨.int, [], [.int 0]⟩) = .error .value := by decide +kernel
+example : output exS (.sysPropSet 0 "atype" (some (.list [0, 1, 2])) ⟨.flt, [3], [.flt 0, .flt (-1), .flt 0]⟩ true)
+    = .error .value := by decide +kernel
+example : output exS (.propGet 0 "nokey" none) = .error .key := by decide +kernel
+example : output exS (.propGet 0 "q" (some (.int 3))) = .error .index := by decide +kernel
+example : output exS (.propGet 0 "q" (some (.slice none none (some 0)))) = .error .value := by decide +kernel
+example : output exS (.propGet 0 "q" (some (.mask [true, false]))) = .error .index := by decide +kernel
+example : output exS (.setItem 0 (.slice (some 0) (some 2) none) 1) = .ok .unit := by decide +kernel
+example : output exS (.setItem 0 (.int 0) 1) = .error .value := by decide +kernel
+example : output exS (.pbcSet 0 [true, false]) = .error .assert := by decide +kernel
+example : output exS (.massesSet 0 [some 1, some 2, some 3]) = .error .value := by decide +kernel
+example : output exS (.sysExtend 0 (.inl 2) true none) = .error .value := by decide +kernel
+example : output exS (.propAtype 0 "q" ⟨.flt, [], [.flt 1]⟩ none) = .error .type := by decide +kernel
+example : output exS (.propAtype 0 "q" ⟨.flt, [1], [.flt 1]⟩ none) = .error .value := by decide +kernel
+example : output exS (.new (some (-1)) none none []) = .error .value := by decide +kernel
+example : output exS (.propGet 7 "q" none) = .error .format := by decide +kernel
+-- a refused operation changes nothing
+example : step exS (.setView 0 "atype" ⟨.int, [3], [.int 1, .int 0, .int 1]⟩) = exS := by decide +kernel
+-- extension: atoms_extend by an Atoms with a different property set (zero fill on both sides)
+example : (propGet 4 "q" none (step exS (.extendAtoms 1 0))).1
+    = .ok ⟨.flt, [5], [.flt (5/2), .flt (1/2), .flt (1/2), .flt 9, .flt 7]⟩ := by decide +kernel
 
 end Atomman.C06
